@@ -44,4 +44,27 @@ example : ∃ (q : QFmt) (D : ℚ → ℚ → Prop) (tp : ℚ → ℚ → ℚ ×
   · exact ⟨3, -2, by norm_num, by norm_num, by norm_num⟩
   · exact ⟨1, -5, by norm_num, by norm_num, by norm_num⟩
 
+/-- the SPECIFICATION of `two_prod` — what Dekker's product returns on its domain (C10: `dekker_product`,
+`dekker_product_scaled`: evalQ = [RN(xy), xy − RN(xy)]) -/
+def twoProdSpec (r : ℚ → ℚ) (a b : ℚ) : ℚ × ℚ := (r (a * b), a * b - r (a * b))
+
+/-- it is an error-free product on the domain "the rounding error of a·b is representable" (no underflow of the error term) -/
+theorem twoProdSpec_ok (q : QFmt) (r : ℚ → ℚ) (hr : IsRN q r) :
+    TwoProdOK q (fun a b => Rep q (a * b - r (a * b))) (twoProdSpec r) :=
+  ⟨fun a b _ _ _ => by simp [twoProdSpec], fun a b _ _ _ => hr.rep _, fun a b _ _ h => h⟩
+
+/-- **products with Dekker's two_prod**: `multiply` and `square` of expansions are exact whenever the rounding error of every
+pairwise product is representable (Dekker's domain) and nothing is truncated -/
+theorem multiply_exact_dekker (q : QFmt) (r : ℚ → ℚ) (hr : IsRN q r) (seq1 seq2 : List ℚ) (h1 : ∀ a ∈ seq1, Rep q a) (h2 : ∀ a ∈ seq2, Rep q a)
+    (hD : ∀ a ∈ seq1, ∀ b ∈ seq2, Rep q (a * b - r (a * b))) (hne1 : seq1 ≠ []) (hne2 : seq2 ≠ []) :
+    (renormEager (arithQ r) false (mulRaw (arithQ r) (twoProdSpec r) false seq1 seq2)).sum = seq1.sum * seq2.sum ∧
+    (renormFunctional (arithQ r) false (mulRaw (arithQ r) (twoProdSpec r) false seq1 seq2)).sum = seq1.sum * seq2.sum :=
+  (multiply_exact q r hr _ _ (twoProdSpec_ok q r hr) seq1 seq2 h1 h2 hD hne1 hne2).2
+
+theorem square_exact_dekker (q : QFmt) (r : ℚ → ℚ) (hr : IsRN q r) (seq : List ℚ) (h1 : ∀ a ∈ seq, Rep q a)
+    (hD : ∀ a ∈ seq, ∀ b ∈ seq, Rep q (a * b - r (a * b))) (hne : seq ≠ []) :
+    (renormEager (arithQ r) false (squareRaw (arithQ r) (twoProdSpec r) false seq)).sum = seq.sum ^ 2 ∧
+    (renormFunctional (arithQ r) false (squareRaw (arithQ r) (twoProdSpec r) false seq)).sum = seq.sum ^ 2 :=
+  (square_exact q r hr _ _ (twoProdSpec_ok q r hr) seq h1 hD hne).2
+
 end FAVerif.Props.C12
